@@ -7,17 +7,17 @@ Import ListNotations.
 Open Scope Z_scope.
 
 (* the value fragment of every log range function (rate, count_over_time, bytes_rate, bytes_over_time) is the
-   defined function of the lines of one (series, window), for every range of whole milliseconds *)
+   defined function of the lines of one (series, window), for every positive range *)
 Theorem lra_value_correct : forall f d v (g : list mrow),
-  0 < d -> whole_ms d -> lra_val_of f d = Some v ->
+  0 < d -> lra_val_of f d = Some v ->
   range_fn f d (map entry_of g) = Some (eval_lra v (map (fun r => set_ts (bucket_sql_z d (r_ts r)) r) g)).
 Proof. exact lra_value_group. Qed.
 Print Assumptions lra_value_correct.
 
 (* bucket / GROUP BY shape: the LRA select yields exactly one row per (label set, window) holding the range
-   function of the entries in it, for every row list in which a fingerprint stands for one label set *)
+   function of the entries in it, for every row list in which a fingerprint stands for one label set, every positive range *)
 Theorem range_agg_correct : forall f d v rows,
-  consistent rows -> nonneg rows -> 0 < d -> whole_ms d -> lra_val_of f d = Some v ->
+  consistent rows -> nonneg rows -> 0 < d -> lra_val_of f d = Some v ->
   ref_range f d (map entry_of rows) = Some (map strip (sem_lra v d rows)).
 Proof. exact lra_stage. Qed.
 Print Assumptions range_agg_correct.
